@@ -97,6 +97,41 @@ pub fn fresh_with_mask(mask: u16) -> Quantizer {
     q
 }
 
+/// the same scale configured in one of four different ways (no conversion involved): "any scale" must not depend on
+/// how it was built. 0: one forbid of the complement; 1: one forbid naming all twelve classes with the lowest class of
+/// the scale last (the would-empty rule keeps it), then one allow of the rest; 2: the complement forbidden one class at a
+/// time; 3: forbid-all with the highest class last, then the others allowed one at a time.
+pub fn build_with_mask(mask: u16, variant: u8) -> Quantizer {
+    let notes = mask_notes(mask);
+    let comp: Vec<u8> = (0..12u8).filter(|n| mask >> n & 1 == 0).collect();
+    let mut q = Quantizer::new();
+    match variant % 4 {
+        0 => return fresh_with_mask(mask),
+        1 | 3 => {
+            let keep = if variant % 4 == 1 { notes[0] } else { *notes.last().unwrap() };
+            let mut all: Vec<Note> = (0..12u8).filter(|n| *n != keep).map(Note::from).collect();
+            all.push(Note::from(keep));
+            q.forbid(&all);
+            let rest: Vec<Note> = notes.iter().filter(|n| **n != keep).map(|n| Note::from(*n)).collect();
+            if variant % 4 == 1 {
+                if !rest.is_empty() {
+                    q.allow(&rest);
+                }
+            } else {
+                for n in rest {
+                    q.allow(&[n]);
+                }
+            }
+        }
+        _ => {
+            for n in comp {
+                q.forbid(&[Note::from(n)]);
+            }
+        }
+    }
+    q
+}
+
 pub fn mask_notes(mask: u16) -> Vec<u8> {
     (0..12u8).filter(|n| mask >> n & 1 == 1).collect()
 }
@@ -146,7 +181,12 @@ pub fn check_record(v: f32, c: &Conversion, step: usize, stats: &mut Stats) -> R
 
 /// history-free conversion: C08 oracle (+ the fresh clauses of C19 when `c19` is set)
 pub fn check_fresh(mask: u16, v: f32, c08: bool, c19: bool, stats: &mut Stats) -> Result<u8, Failure> {
-    let mut q = fresh_with_mask(mask);
+    check_fresh_built(mask, 0, v, c08, c19, stats)
+}
+
+/// as `check_fresh`, with the scale configured in the way selected by `variant` (see `build_with_mask`)
+pub fn check_fresh_built(mask: u16, variant: u8, v: f32, c08: bool, c19: bool, stats: &mut Stats) -> Result<u8, Failure> {
+    let mut q = build_with_mask(mask, variant);
     let c = q.convert(v);
     let cl = clampv(v);
     if c08 && !v.is_nan() {
@@ -155,8 +195,9 @@ pub fn check_fresh(mask: u16, v: f32, c08: bool, c19: bool, stats: &mut Stats) -
                 "C08.nearest",
                 0,
                 format!(
-                    "scale {:?}: convert({}) -> note {} ({:.6} V, distance {:.6}); the rule gives note {} ({:.6} V, distance {:.6})",
+                    "scale {:?} (configured in way {}): convert({}) -> note {} ({:.6} V, distance {:.6}); the rule gives note {} ({:.6} V, distance {:.6})",
                     mask_notes(mask),
+                    variant % 4,
                     v,
                     c.note_num,
                     c.note_num as f64 / 12.0,
@@ -166,7 +207,7 @@ pub fn check_fresh(mask: u16, v: f32, c08: bool, c19: bool, stats: &mut Stats) -
                     (cl - reference_note(mask, cl) as f64 / 12.0).abs()
                 ),
             )
-            .with(serde_json::json!({"scale_mask": mask, "v_bits": v.to_bits(), "v": v as f64})));
+            .with(serde_json::json!({"scale_mask": mask, "v_bits": v.to_bits(), "v": v as f64, "build_variant": variant})));
         }
     }
     if c19 {
@@ -513,8 +554,9 @@ pub fn check_scale(mask: u16, inputs: &mut Vec<f32>, c19: bool, stats: &mut Stat
     inputs.sort_by(|a, b| a.partial_cmp(b).unwrap());
     let mut prev: Option<(f32, u8)> = None;
     let mut nt = 0u64;
-    for &v in inputs.iter() {
-        let r = check_fresh(mask, v, !c19, c19, stats)?;
+    for (i, &v) in inputs.iter().enumerate() {
+        // the scale is configured in a different one of the four ways for consecutive inputs
+        let r = check_fresh_built(mask, (i % 4) as u8, v, !c19, c19, stats)?;
         if !c19 {
             if let Some((pv, pr)) = prev {
                 if r < pr {
